@@ -874,8 +874,8 @@ func stackOf(fr *frame) []string {
 }
 
 func shortPos(p string) string {
-	if i := strings.Index(p, "/repo/"); i >= 0 {
-		return p[i+6:]
+	if i := strings.Index(p, "/internal/"); i >= 0 {
+		return p[i+1:]
 	}
 	return p
 }
